@@ -70,7 +70,9 @@ type sys struct {
 	holds bool
 	// flight: delivery deviation Xq/Fd (advertisement Data in flight, may be overtaken); it triples
 	// the state space per deviation, so it is used on graphs with <= 2 links (thorough: <= 3)
-	flight    bool
+	flight bool
+	// ticks: event Dt(i) (the dead interval passes at i with stable links); used with parallel links
+	ticks     bool
 	trace     *dvsim.Trace
 	m         *dvsim.Machine
 	opsCache  map[string][]explore.Op
@@ -172,6 +174,15 @@ func (y *sys) ops(s *dvsim.Sim) []explore.Op {
 			ops = append(ops, explore.Op{Name: fmt.Sprintf("Dc(%d)", a)})
 		}
 	}
+	if y.ticks {
+		// time passes at a although nothing is wrong: more than RouterDeadInterval with the live
+		// neighbours sending heartbeats, then checkDeadNeighbors (must change nothing)
+		for a := 0; a < n; a++ {
+			if s.Nodes[a].Up && !s.HasSilentNeighbor(a) {
+				ops = append(ops, explore.Op{Name: fmt.Sprintf("Dt(%d)", a)})
+			}
+		}
+	}
 	if y.holds {
 		if len(s.Held) > 0 {
 			ops = append(ops, explore.Op{Name: "Rl"})
@@ -266,6 +277,9 @@ func applyOp(s *dvsim.Sim, nm string) {
 	case strings.HasPrefix(nm, "Dc("):
 		fmt.Sscanf(nm, "Dc(%d)", &a)
 		s.DeadCheck(a)
+	case strings.HasPrefix(nm, "Dt("):
+		fmt.Sscanf(nm, "Dt(%d)", &a)
+		s.DeadCheck(a)
 	case strings.HasPrefix(nm, "DcR("):
 		fmt.Sscanf(nm, "DcR(%d)", &a)
 		s.DeadCheckRace(a)
@@ -318,6 +332,10 @@ func (y *sys) Apply(i any, op explore.Op) []report.Violation {
 	var v []report.Violation
 	for _, p := range s.Problems {
 		v = append(v, report.Violation{Clause: "C18.quiesce", Key: strings.SplitN(p, " after ", 2)[0], Detail: p})
+	}
+	for _, be := range s.BootErrors {
+		v = append(v, report.Violation{Clause: "C18.dist", Key: "router fails to start (Router.Start would return an error): it never learns or advertises anything", Detail: be})
+		break
 	}
 	seen := map[string]bool{}
 	for _, a := range s.AdvSeen {
@@ -486,13 +504,23 @@ func build(cfg string) explore.System {
 	if y.holds {
 		vsched.RecordSites = true
 	}
-	var down [][2]int
+	var down, par [][2]int
 	var opt dvsim.Options
 	for _, p := range parts[2:] {
 		fmt.Sscanf(p, "d=%d", &y.closureDepth)
 		fmt.Sscanf(p, "orders=%d", &y.orders)
 		if p == "names=nested" {
 			opt.Nested = true
+		}
+		if strings.HasPrefix(p, "net=") {
+			opt.Network = p[4:]
+		}
+		if strings.HasPrefix(p, "par=") {
+			for _, e := range strings.Split(p[4:], ",") {
+				if len(e) == 2 {
+					par = append(par, [2]int{int(e[0] - '0'), int(e[1] - '0')})
+				}
+			}
 		}
 		if strings.HasPrefix(p, "down=") {
 			for _, e := range strings.Split(p[5:], ",") {
@@ -504,9 +532,16 @@ func build(cfg string) explore.System {
 	}
 	y.closed = map[string]bool{}
 	// links listed in down= are down in the initial state (routers that join later)
+	y.ticks = len(par) > 0
 	init := func(s *dvsim.Sim) {
 		for _, e := range down {
 			s.LinkDown(e[0], e[1])
+		}
+		for _, e := range par {
+			if e[0] > e[1] {
+				e[0], e[1] = e[1], e[0]
+			}
+			s.Parallel[e] = true
 		}
 		if fam == "fault" || fam == "faultmid" {
 			converge(s) // these families start from the fixed point of the initial topology
@@ -598,6 +633,12 @@ func configs(th bool) []explore.Config {
 		// router names in a prefix relation (/ndn/r0, /ndn/r0/x1, /ndn/r0/x1/x2, ...)
 		sched("n3:01-02 names=nested", 1, 0)
 		fault("n4:01-03-12 names=nested", 2)
+		// network names with two and three components
+		sched("n2:01 net=/ndn/edu", 1, 0)
+		sched("n3:01-02 net=/ndn/edu/cs", 0, 0)
+		// two parallel faces between the routers, sync Interests alternating between them, time passing
+		fault("n2:01 par=01", 1)
+		fault("n3:01-02 par=01", 1)
 		hold("n2:01", 2, 0)
 		// faults from the fixed point: <= 2 fault / repair events per history
 		for _, g := range append(append([]string{}, all...), line5) {
